@@ -132,7 +132,22 @@ pub fn execute(scn: &Scenario, keep_lines: bool) -> Result<Outcome, String> {
         Ok(Err(e)) => Err(e),
         Err(_) => {
             let loc = crate::LAST_PANIC_LOC.with(|l| l.borrow().clone());
-            Err(format!("simulator panicked outside a guarded library call at {} while running {}", loc, scn.summary()))
+            if loc.starts_with("src/") {
+                // a bug in the simulator itself
+                return Err(format!("simulator panicked at {} while running {}", loc, scn.summary()));
+            }
+            // The LIBRARY panicked while the simulator was merely observing an envelope it had been handed
+            // (digest(), to_cbor_data(), subject(), case() ...). Whatever property is being decided, its
+            // observation could not be made: reported as a violation of the armed property.
+            let mut out = Outcome::from_ctx(Ctx::new(&scn.property, scn.seed, keep_lines));
+            out.violations.push(Violation {
+                oracle: format!("{}.observation-panics", scn.property),
+                step: scn.steps.len(),
+                msg: format!("the library panicked at {} while the simulator observed an envelope it had produced or decoded", loc),
+                signature: loc,
+            });
+            out.nontrivial = true;
+            Ok(out)
         }
     }
 }
